@@ -494,6 +494,17 @@ func (h *hostileCtx) streamEndings(p *TunPlan, tr string) string {
 	}
 	tuns := StartTunnels(c, []*TunPlan{p})
 	t := tuns[0]
+	for _, hst := range t.Hosts {
+		// the host, too, may end the connection while the client goes on
+		switch c.T.Weighted(3, 1, 1) {
+		case 1:
+			hst.CloseAfterScript = true
+			kind += "+host-closes"
+		case 2:
+			hst.ResetAfter = c.T.Choose(len(hst.Script) + 1)
+			kind += "+host-resets"
+		}
+	}
 	c.S.Run(func() bool { return t.SentAll() || t.Client.Failed != "" }, 8000, 20*time.Second)
 	c.S.Run(nil, 600, 2*time.Second)
 	t.Client.CloseAll(false)
